@@ -167,7 +167,9 @@ class DM:
 
         # stash inputs and some computed values on self
         self.ifn = ifn
-        self.Ifn = fft.fft2(ifn)
+        # ifn is centered on the N//2th sample; move its origin to [0,0] so that
+        # multiplying by Ifn convolves without translating
+        self.Ifn = fft.fft2(fft.ifftshift(ifn))
         self.Nout = Nout
         self.Nact = Nact
         self.sep = sep
